@@ -666,6 +666,11 @@ void QXmppServer::_q_clientConnected()
         return;
     }
 
+    // the client may have been disconnected in the meantime (e.g. late password checker reply)
+    if (!d->incomingClients.contains(client)) {
+        return;
+    }
+
     // FIXME: at this point the JID must contain a resource, assert it?
     const QString jid = client->jid();
 
@@ -691,18 +696,22 @@ void QXmppServer::_q_clientDisconnected()
     }
 
     if (d->incomingClients.remove(client)) {
-        // remove stream from routing tables
+        // remove stream from routing tables (a client may have been registered under several
+        // addresses, e.g. if it bound a resource or authenticated more than once)
         const QString jid = client->jid();
-        if (!jid.isEmpty()) {
-            if (d->incomingClientsByJid.value(jid) == client) {
-                d->incomingClientsByJid.remove(jid);
+        for (auto itr = d->incomingClientsByJid.begin(); itr != d->incomingClientsByJid.end();) {
+            if (itr.value() == client) {
+                itr = d->incomingClientsByJid.erase(itr);
+            } else {
+                ++itr;
             }
-            const QString bareJid = QXmppUtils::jidToBareJid(jid);
-            if (d->incomingClientsByBareJid.contains(bareJid)) {
-                d->incomingClientsByBareJid[bareJid].remove(client);
-                if (d->incomingClientsByBareJid[bareJid].isEmpty()) {
-                    d->incomingClientsByBareJid.remove(bareJid);
-                }
+        }
+        for (auto itr = d->incomingClientsByBareJid.begin(); itr != d->incomingClientsByBareJid.end();) {
+            itr.value().remove(client);
+            if (itr.value().isEmpty()) {
+                itr = d->incomingClientsByBareJid.erase(itr);
+            } else {
+                ++itr;
             }
         }
 
